@@ -1143,3 +1143,61 @@ def rule_origin_fresh(ctx, rep, config="c-lib"):
                           "round the loop): a situation without distance of its own -- a predicted one -- is judged by the origin of the start situation met before "
                           "it, and a genuine candidate is dropped (one derivation lost, *ambiguous_p stays 0)", where=c.where(), witness=[c.where()])
     rep.floor("C03-origin-fresh", "comparisons of a situation's origin with the origin of the state", n, 1)
+
+
+def rule_state_anode_pair(ctx, rep, config="c-lib"):
+    rep.rule("C03-state-anode", "in the candidate loop make_parse chooses, per origin, the state that the candidate hangs under and the abstract node that receives its "
+                                "translation (the original state, the copy found for this origin, or a new copy): the two always belong together -- wherever the choice "
+                                "merges, the node is the `anode' member of the very state chosen on that way.  A node taken from the copy with the state left at the "
+                                "original records the wrong parent: translations placed later through that parent land in the node of another split (one tree too "
+                                "many, one missing)")
+    p = ctx.prog(config)
+    f = p.fn("make_parse")
+    rep.cover(p, [f.name])
+    expr.NAMED[0] = False
+    n = 0
+    bad = []
+    good = 0
+
+    def same_state(va, vs):
+        la = f.inst(strip_casts(f, va))
+        if la is None or la.op != "load":
+            return False
+        pa = resolve_addr(f, la.ops[0])
+        if pa.last_field() != "parse_state.anode" or pa.root[0] != "val":
+            return False
+        base = strip_casts(f, pa.root[1])
+        s_ = strip_casts(f, vs)
+        if base == s_:
+            return True
+        # two reads of the same place
+        b1, b2 = f.inst(base), f.inst(s_)
+        if b1 is not None and b2 is not None and b1.op == "load" and b2.op == "load":
+            return expr.addr_str(f, b1.ops[0], 0, 3) == expr.addr_str(f, b2.ops[0], 0, 3)
+        return False
+    for pa_ in f.all_insts():
+        if pa_.op != "phi" or "yaep_tree_node" not in pa_.ty:
+            continue
+        ins = pa_.d["incoming"]
+        if sum(1 for (v, _) in ins if (lambda l_: l_ is not None and l_.op == "load" and resolve_addr(f, l_.ops[0]).last_field() == "parse_state.anode")(f.inst(strip_casts(f, v)))) < 2:
+            continue
+        cands = [ps for ps in pa_.block.insts if ps.op == "phi" and "parse_state" in ps.ty and [pb for (_, pb) in ps.d["incoming"]] == [pb for (_, pb) in ins]]
+        best = None
+        for ps in cands:
+            okc = [same_state(va, vs) for ((va, _), (vs, _)) in zip(ins, ps.d["incoming"])]
+            if best is None or sum(okc) > sum(best[1]):
+                best = (ps, okc)
+        if best is None or sum(best[1]) == 0:
+            continue
+        n += 1
+        if all(best[1]):
+            good += 1
+            rep.ok("C03-state-anode", "make_parse/state-and-node-chosen-together#%d" % n, sample={"merge": pa_.where()})
+        else:
+            k = best[1].index(False)
+            src = f.inst(strip_casts(f, ins[k][0]))
+            rep.violation("C03-state-anode", "make_parse/state-and-node-chosen-together#%d" % n, "on one way into the merge the abstract node is not the `anode' of the state "
+                          "chosen on that way (the node comes from %s, the state from elsewhere): the candidate records a parent state whose node is another one than "
+                          "the node that receives its translation" % (src.where() if src is not None else "?"), where=(src.where() if src is not None else pa_.where()),
+                          witness=[pa_.where()])
+    rep.floor("C03-state-anode", "merges of (state, abstract node) choices", n, 1)
